@@ -60,7 +60,10 @@ CLAIM = dict(
          "new_context/get_all/derived vs model on generated dicts with `is` checks; model render vs real templates "
          "(set/lookup/include with locals); deep snapshots (structure + identity) of data, env.globals, template.globals, "
          "policies around generated templates (set, namespace, loops, macros, include/import with and without context, "
-         "~70 container-filter expressions incl. sort/reverse/unique/sum(start)/batch/slice/dictsort/map/xmlattr/tojson) "
+         "~110 container-filter expressions incl. sort/reverse/unique/sum(start)/batch/slice/dictsort/map/xmlattr/tojson; "
+         "attribute assignment on data dicts/objects/globals alone and inside tuple targets in every position must raise and "
+         "leave them untouched; namespace(mapping|pairs[, k=v]) over data, env globals, template globals and an imported "
+         "module's exported dict followed by attribute assignments) "
          "rendered repeatedly in random orders, interleaved data sets, sync and async; module cache before/after; "
          "8-16 threads with switch interval 1e-6.",
     note="Trusted: Lean kernel; translator (token-shape classification of emitted stores, dynamic fragments unclassified); "
@@ -150,6 +153,7 @@ def make_data(variant):
         objs=[Obj(g=1, v="x", tags=["t", "s"]), Obj(g=2, v="y", tags=[]), Obj(g=1, v="z", tags=["u"])],
         s="he<l>lo\nwo rld", n=5, z=0, start=[], start2=[0], tup=(1, [2, 3]), st={3, 1, 2}, lines=["a", "b"],
         attrs={"class": "c", "id": 1, "data-x": ["l"]}, words=["x y", "z"],
+        cfg={"seen": "no", "lst": [1]}, cobj=Obj(seen="no"), pairs=[("p", 1), ("q", [2])],
     )
     if variant == 1:
         d.update(xs=[9, 8], ys=["q"], n=1, s="other", nested=[[5]], d={"k": 7}, objs=[Obj(g=3, v="w", tags=["a"])])
@@ -181,6 +185,37 @@ ITERS = ["xs", "ys", "nested", "objs", "d", "d.items()", "d|dictsort", "xs|sort"
          "xs|batch(2)", "xs|slice(2)", "range(n)", "dd|items", "st|sort", "tup", "ys|unique", "lines"]
 
 
+# attribute assignment is for `namespace()` objects only: on anything else (data dict, data object, globals) it must raise
+# TemplateRuntimeError and leave the object untouched — also for every ref of a tuple target, in either order
+GUARD = [
+    "{% set ns = namespace(total=0) %}{% set ns.total, cfg.seen = ns.total + 1, 'yes' %}{{ ns.total }}{{ cfg.seen }}",
+    "{% set ns = namespace(a=0) %}{% set cfg.seen, ns.a = 'yes', 1 %}{{ ns.a }}",
+    "{% set ns = namespace(a=0) %}{% set ns.a, v, GD.z = 1, 2, 3 %}{{ v }}{{ GD }}",
+    "{% set ns = namespace(a=0) %}{% set ns.a, cobj.seen, ns.b = 1, 'yes', 2 %}{{ ns.a }}",
+    "{% set ns = namespace(a=0) %}{% set ns.a, ns.b, cfg.lst = 1, 2, [] %}{{ ns.a }}",
+    "{% set cfg.x = 1 %}{{ cfg }}",
+    "{% set d.k = xs %}{{ d }}",
+    "{% set ns = namespace() %}{% set ns.a, TG.t = 1, 2 %}{{ ns.a }}{{ TG }}",
+    "{% set ns = namespace(a=0) %}{% for x in [1, 2] %}{% set ns.a, cfg.lst = x, [] %}{% endfor %}{{ ns.a }}{{ cfg }}",
+    "{% set m = namespace(a=0) %}{% set n2 = namespace(b=0) %}{% set m.a, n2.b, dd.b = 1, 2, 3 %}{{ m.a }}{{ n2.b }}{{ dd }}",
+]
+# `namespace(mapping)` / `namespace(pairs)` copies: attribute assignments afterwards must not reach the mapping it was made from
+NSFORMS = [
+    "{% set ns = namespace(cfg) %}{% set ns.seen = 'yes' %}{% set ns.extra = xs %}{{ ns.seen }}{{ ns.extra }}{{ cfg }}",
+    "{% set ns = namespace(cfg, k=xs) %}{% set ns.k = ns.k + [1] %}{% set ns.lst = 0 %}{{ ns.k }}{{ cfg }}{{ xs }}",
+    "{% set ns = namespace(pairs) %}{% set ns.p = 5 %}{% set ns.r = ns.q %}{{ ns.p }}{{ pairs }}",
+    "{% set ns = namespace(d.items()) %}{% set ns.k = 0 %}{% set ns.new = 1 %}{{ ns.k }}{{ d }}",
+    "{% set ns = namespace(d, z=1) %}{% for x in xs %}{% set ns.z = ns.z + x %}{% set ns.k = x %}{% endfor %}{{ ns.z }}{{ d }}",
+    "{% set ns = namespace(GD) %}{% set ns.b = 1 %}{% set ns.n = xs %}{{ ns.b }}{{ GD }}",
+    "{% set ns = namespace(GD, extra=GL) %}{% set ns.a = 0 %}{{ ns.a }}{{ ns.extra }}{{ GD }}{{ GL }}",
+    "{% set ns = namespace(TG, z=1) %}{% set ns.t = 0 %}{{ ns.t }}{{ TG }}",
+    "{% import 'lib' as lib %}{% set ns = namespace(lib.conf) %}{% set ns.a = ns.a + [2] %}{% set ns.c = 3 %}{{ ns.a }}{{ lib.conf }}",
+    "{% from 'lib' import conf %}{% set ns = namespace(conf, b=0) %}{% set ns.z = 1 %}{{ ns.b }}{{ conf }}",
+    "{% set ns = namespace(dd) %}{% for x in xs %}{% set ns.b = ns.b + [x] %}{% endfor %}{{ ns.b }}{{ dd }}",
+    "{% macro m(c) %}{% set ns = namespace(c) %}{% set ns.seen = 'm' %}{{ ns.seen }}{% endmacro %}{{ m(cfg) }}{{ m(GD) }}{{ cfg }}{{ GD }}",
+]
+
+
 def gen_expr(r):
     return "(" + r.choice(EXPRS) + ")"
 
@@ -193,7 +228,7 @@ def gen_stmt(r, depth, in_loop=False):
     E = lambda: gen_expr(r)  # noqa: E731
     B = lambda il=in_loop: gen_body(r, depth - 1, il) if depth > 0 else "{{ %s }}" % E()  # noqa: E731
     kinds = ["out", "out", "out", "if", "for", "for", "set", "set", "setblock", "with", "filterblock", "macro", "call", "include",
-             "includenoctx", "import", "from", "fromctx", "ns", "nsloop", "loopvar", "forrec", "setlist", "autoescape"]
+             "includenoctx", "import", "from", "fromctx", "ns", "nsloop", "nsdict", "loopvar", "forrec", "setlist", "autoescape"]
     if depth <= 0:
         kinds = ["out", "out", "set", "loopvar", "setlist"]
     k = r.choice(kinds)
@@ -240,6 +275,11 @@ def gen_stmt(r, depth, in_loop=False):
         return "{%% set ns = namespace(c=%s, l=xs) %%}{%% set ns.c = ns.l|sort %%}{%% set ns.l = ns.l + [0] %%}{{ ns.c }}{{ ns.l }}{{ xs }}" % E()
     if k == "nsloop":
         return "{% set acc = namespace(t=start) %}{% for x in nested %}{% set acc.t = acc.t + x %}{% endfor %}{{ acc.t }}{{ start }}"
+    if k == "nsdict":
+        src = r.choice(["cfg", "d", "dd", "GD", "TG", "pairs", "d.items()", "attrs"])
+        kw = r.choice(["", ", k=xs", ", seen=1"])
+        return "{%% set nd%d = namespace(%s%s) %%}{%% set nd%d.seen = %s %%}{%% set nd%d.k = xs %%}{{ nd%d.seen }}{{ %s }}" % (
+            depth, src, kw, depth, E(), depth, depth, src.replace(".items()", ""))
     if k == "autoescape":
         return "{%% autoescape %s %%}%s{{ s }}{%% endautoescape %%}" % (r.choice(["true", "false"]), B())
     raise AssertionError(k)
@@ -251,7 +291,7 @@ def gen_templates(r):
         "inc_a": "(A{{ %s }}{%% set leak = xs|sort %%}{{ leak }})" % E(),
         "inc_b": "(B{%% for x in %s %%}{{ x }}{%% endfor %%}{{ %s }})" % (r.choice(ITERS), E()),
         # imported without context: sees only the globals (GL is a list, GD a dict in env.globals)
-        "lib": "{%% set gv = %s %%}{%% set gl = GL %%}{%% macro lm(p) %%}[{{ p }}{{ GL|sort }}{{ %s }}]{%% endmacro %%}" % (
+        "lib": "{%% set conf = {'a': [1], 'b': 2} %%}{%% set gv = %s %%}{%% set gl = GL %%}{%% macro lm(p) %%}[{{ p }}{{ GL|sort }}{{ %s }}]{%% endmacro %%}" % (
             r.choice(["GL|sort", "GL|reverse|list", "GD|dictsort", "GL|sum", "GD|tojson", "GL|batch(2)|list", "(GL|unique|list) + [1]"]),
             r.choice(["GD|items|list", "GL|map('string')|join", "p|string|length", "GL|slice(2)|list"])),
         "libctx": "{%% macro cm(p) %%}<{{ p }}{{ %s }}>{%% endmacro %%}" % E(),
@@ -267,6 +307,13 @@ def gen_templates(r):
             src = gen_body(r, 2)
         t[name] = src
         mains.append(name)
+    # the attribute-assignment corpus: every guard form, and two of the namespace(mapping) forms per environment
+    for j, src in enumerate(GUARD):
+        t["guard%d" % j] = src
+        mains.append("guard%d" % j)
+    for j in r.sample(range(len(NSFORMS)), 4):
+        t["nsform%d" % j] = NSFORMS[j]
+        mains.append("nsform%d" % j)
     return t, mains
 
 
@@ -524,7 +571,9 @@ def run(ctx, res):
         env = make_env(jinja2, is_async, templates, autoescape=r.random() < 0.3)
         fresh = make_env(jinja2, is_async, templates, autoescape=env.autoescape)
         try:
-            tmpl = {n: env.get_template(n) for n in templates}
+            tmpl = {n: env.get_template(n, globals={"TG": {"t": [1], "u": 2}}) for n in templates}
+            for n in templates:
+                fresh.get_template(n, globals={"TG": {"t": [1], "u": 2}})
         except jinja2.TemplateSyntaxError as x:
             raise core.HarnessError(f"generator produced a template that does not compile: {x}: {templates}")
         datasets = [make_data(0), make_data(1), make_data(2)]
@@ -550,6 +599,9 @@ def run(ctx, res):
             if got[0] != "ok":
                 failing_templates += 1
             meta = dict(templates=templates, main=nm, dataset=di, how=how, is_async=is_async, autoescape=env.autoescape, seed=ctx.seed)
+            if nm.startswith("guard") and got != ("exc", "TemplateRuntimeError"):
+                res.violate("C29:attribute-assignment-unguarded", f"{templates[nm]!r} must raise TemplateRuntimeError (attribute assignment "
+                            f"on something that is not a namespace() object); via {how} it gives {got!r:.160}", meta)
             if got != ref[(nm, di)]:
                 res.violate("C29:repeat-differs", f"{nm} with data set {di} via {how} gives {got!r:.200}; an isolated render on a fresh "
                             f"environment gives {ref[(nm, di)]!r:.200}", meta)
@@ -581,6 +633,8 @@ def run(ctx, res):
         if not is_async and ei % ctx.pick(2, 1) == 0:
             nthreads = r.choice([8, 12, 16])
             tenv = make_env(jinja2, False, templates, autoescape=env.autoescape)   # cold caches: first loads race too
+            for n in templates:      # (template globals are given at load time; the race is on the first *renders*)
+                tenv.get_template(n, globals={"TG": {"t": [1], "u": 2}})
             shared_data = [make_data(0), make_data(1)]
             shared_snaps = [snap(d) for d in shared_data]
             results = [None] * nthreads
